@@ -17,6 +17,7 @@ package hotspot
 import (
 	"fmt"
 	"math"
+	"math/bits"
 	"runtime"
 	"sync/atomic"
 	"time"
@@ -285,9 +286,9 @@ func (c *rejectTrafficShapingController) PerformChecking(arg interface{}, batchC
 			} else {
 				// refill token
 				restQps := atomic.LoadInt64(oldQpsPtr)
-				toAddTokenNum := passTime * tokenCount / (c.durationInSec * 1000)
+				toAddTokenNum := mulDiv(passTime, tokenCount, c.durationInSec*1000)
 				newQps := int64(0)
-				if toAddTokenNum+restQps > maxCount {
+				if toAddTokenNum > maxCount-restQps {
 					newQps = maxCount - batchCount
 				} else {
 					newQps = toAddTokenNum + restQps - batchCount
@@ -379,4 +380,21 @@ func (c *throttlingTrafficShapingController) PerformChecking(arg interface{}, ba
 			return base.NewTokenResultBlockedWithCause(base.BlockTypeHotSpotParamFlow, msg, c.BoundRule(), nil)
 		}
 	}
+}
+
+// mulDiv returns a*b/c for non-negative a, b and positive c without overflowing in the product
+// (a long idle time multiplied by a large threshold does not fit 64 bits); the result saturates at MaxInt64.
+func mulDiv(a, b, c int64) int64 {
+	if a < 0 || b < 0 || c <= 0 {
+		return 0
+	}
+	hi, lo := bits.Mul64(uint64(a), uint64(b))
+	if hi >= uint64(c) {
+		return math.MaxInt64
+	}
+	q, _ := bits.Div64(hi, lo, uint64(c))
+	if q > math.MaxInt64 {
+		return math.MaxInt64
+	}
+	return int64(q)
 }
